@@ -318,16 +318,24 @@ K4 = [de("c16_noise_update_n2_always", "NoiseAgent::update, 2 traders, p_limit >
       de("c17_momentum_ratio_zero_rising_n2", "MomentumAgent::update, order ratio 0 at saturated demand: never a limit order, always one market order per trader", covers=["cover.every_trader_acted"], timeout=600),
       de("c17_momentum_saturated_ratio_half_rising_n2", "MomentumAgent::update, order ratio 1/2 and demand/n >= 4: the limit-order probability ratio x demand/n >= 1 means ALWAYS (one limit + one market order per trader)", covers=["cover.every_trader_acted"], timeout=600)]
 
+K5 = [de("c16_noise_market_update_n2_always", "NoiseMarketAgent::update (asset 1 of 2), 2 traders, both probabilities >= 1: exactly one limit and one market order per trader on the agent's own asset", covers=["cover.every_trader_placed_both"], timeout=600),
+      de("c16_noise_market_update_n2_never", "same, both probabilities 0: nothing", covers=["cover.nobody_acted"], timeout=600),
+      de("c16_noise_market_update_n2_market_only", "same, p_limit = 0, p_market >= 1", covers=[], timeout=600, tiers=("thorough",)),
+      de("c16_noise_market_update_n2_interior", "same, both probabilities strictly inside (0,1)", covers=["cover.every_trader_placed_both", "cover.nobody_acted"], timeout=600, tiers=("thorough",)),
+      de("c16_random_market_update_always_tick3", "RandomMarketAgents::update, one slot on asset 1 of 2 (empty or holding an order of any status), rate >= 1, tick 3: cancels its own Active order, else places one order on its own asset with price = 3 x tick in range, volume in range, trader id = index", covers=["cover.cancels", "cover.places_a_bid"], timeout=900),
+      de("c16_random_market_update_never_tick1", "same, rate 0: does nothing, draws one word", covers=[], timeout=900, tiers=("thorough",)),
+      de("c16_random_market_update_interior_tick10", "same, 0 < rate < 1, tick 10, single-value ranges", covers=["cover.cancels", "cover.places_a_bid"], timeout=900, tiers=("thorough",))]
+
 PROPS["C16"] = {
     "level": "model_checking",
-    "functions": ["agents::common::{place_buy_limit_order,place_sell_limit_order,place_buy_limit_order_market,place_sell_limit_order_market,round_price_up,round_price_down,cancel_live_orders}",
+    "functions": ["<RandomAgents as Agent>::update", "<RandomMarketAgents as MarketAgent>::update", "<NoiseAgent as Agent>::update", "<NoiseMarketAgent as MarketAgent>::update", "agents::common::{place_buy_limit_order,place_sell_limit_order,place_buy_limit_order_market,place_sell_limit_order_market,round_price_up,round_price_down,cancel_live_orders}",
                   "Env::{place_order,cancel_order,order_status}", "MarketEnv::place_order", "OrderBook::create_order", "rand::distributions::Standard for f32 (as compiled)"],
     "assumptions": DE_ASSUME + ["price distribution = AnyDist: returns any finite f64 >= 0 (the log-normal's support; +inf excluded); mid-price = bid + 0.5 (ask - bid) of an uncrossed touch incl. the empty-side sentinels"],
     "bounds": "ticks 1..10 enumerated (quick: a subset per kernel), ALL finite f64 draws and mid-prices (bit-precise), 2 tracked orders of arbitrary status for the cancel kernel, ALL generator words",
-    "outside": "runs of many steps (the per-update statement is the inductive step; its composition over steps with Env::step is stated), > 2 traders / > 1 random-agent slot / > 2 tracked orders, symbolic random-agent ranges, the multi-asset agents' update() (same code shape; only their kernels and the momentum variant are decided), the statistical content of interior probabilities",
-    "explanation": "Whole update() of RandomAgents (one slot) and NoiseAgent (2 traders) with the environment's submission calls logged: probability 0 never / >= 1 always, once per trader per call, configured volumes and own trader ids, random agents inside their tick and volume ranges on the grid, cancelling only their own Active order and never holding more than one. Kernel level: the four limit-price kernels over ALL finite draws and mid-prices at each tick 1..10 (Ok, right side, on the grid, buys <= mid <= sells, configured volume and trader, no randomness besides the distribution), and the cancel kernel over ALL generator words (cancels only tracked orders that were active, returns exactly the survivors, probability 0 never / >= 1 always, one word per live order).",
+    "outside": "runs of many steps (the per-update statement is the inductive step; its composition over steps with Env::step is stated), > 2 traders / > 1 random-agent slot / > 2 tracked orders, symbolic random-agent ranges, the statistical content of interior probabilities",
+    "explanation": "Whole update() of RandomAgents / RandomMarketAgents (one slot) and NoiseAgent / NoiseMarketAgent (2 traders) with the environment's submission calls logged: probability 0 never / >= 1 always, once per trader per call, configured volumes and own trader ids, random agents inside their tick and volume ranges on the grid, cancelling only their own Active order and never holding more than one. Kernel level: the four limit-price kernels over ALL finite draws and mid-prices at each tick 1..10 (Ok, right side, on the grid, buys <= mid <= sells, configured volume and trader, no randomness besides the distribution), and the cancel kernel over ALL generator words (cancels only tracked orders that were active, returns exactly the survivors, probability 0 never / >= 1 always, one word per live order).",
     "stubs": ["LogNormal<f64> -> AnyDist in the generic kernels (the ziggurat sampler's loops are out of reach)"] + AG_COMMON_STUBS,
-    "harnesses": K1 + K2 + K3 + K4,
+    "harnesses": K1 + K2 + K3 + K4 + K5,
 }
 
 
